@@ -610,8 +610,9 @@ func evaluate(ex *xpath.Expr, nav xpath.NodeNavigator) (o Outcome, it *xpath.Nod
 // useNS is set per run (Cfg.NS): every Compile of the run goes through
 // CompileWithNS with nsMap, so name tests with a prefix match by namespace URL.
 var (
-	useNS bool
-	nsMap = map[string]string{"x": "urn:x", "y": "urn:y"}
+	useMust bool // Cfg.Must: compile through MustCompile
+	useNS   bool
+	nsMap   = map[string]string{"x": "urn:x", "y": "urn:y"}
 )
 
 // selectAll performs a guarded Select and drains the iterator. Select itself
@@ -646,6 +647,9 @@ func compile(text string) (ex *xpath.Expr, o Outcome) {
 			ex, o = nil, Outcome{Kind: k, V: "compile: " + v}
 		}
 	}()
+	if useMust {
+		return xpath.MustCompile(text), Outcome{}
+	}
 	var err error
 	if useNS {
 		ex, err = xpath.CompileWithNS(text, nsMap)
